@@ -266,7 +266,14 @@ def correspond(ctx, case, stage, st, W, sc):
             ctx.diff(f"basm.body:{stage}:{f}", strip(case), mval, ival)
     if not m.get("again_same_keys", True):
         ctx.diff(f"basm.body:{stage}:again", strip(case), "same body on a second call", "differs")
-    if bal is not None:
+    pool_ops = [bytes(c[1]) for c in getattr(B, "certs", []) if c and c[0] == 3 and isinstance(c[1], (bytes, bytearray))] if bal is not None else []
+    if bal is not None and len(pool_ops) != len(set(pool_ops)):
+        # the same pool registered twice in one transaction: the ledger charges the deposit once (the second certificate is a
+        # re-registration), the Lean `Ledger.producedCoin` charges per certificate and its theorems exclude the case
+        # (C06's no-double-registration condition): outside the hypotheses, counted, not compared
+        ctx.count("basm:ledger-skipped:same-pool-registered-twice")
+        ctx.skipped += 1
+    elif bal is not None:
         (cc, ca), (pc_, pa) = bal
         lg = m["ledger"]
         if (int(lg["consumed_coin"]), int(lg["produced_coin"])) != (cc, pc_):
